@@ -65,7 +65,7 @@ fn main() {
             let c = corpus::Corpus::load(&format!("{}/corpus/spec.txt", verif));
             let mut kinds = std::collections::BTreeSet::new();
             let mut acc = 0;
-            for p in &c.programs {
+            for p in c.programs.iter().chain(c.extra.iter()) {
                 if let Ok(Ok((t, _))) = api::parse_str(api::Gram::Sv, p, std::path::Path::new("k.sv"), &api::Cfg::default()) {
                     acc += 1;
                     for n in &t {
